@@ -39,27 +39,42 @@ def run(tier, seed):
 
 
 def metric_change_cotangent():
-    """The ambient metric of a constrained system is reassigned (what the metric adapters do at the end of a
-    slow window) and a momentum is drawn for a state that was used before: it must lie in the cotangent
-    space of the NEW metric."""
+    """The library's own way of changing the ambient metric of a constrained system under live states: a
+    metric adapter's `finalize` installs the adapted metric and redraws the momenta of the chain states it is
+    given.  Every redrawn momentum must lie in the cotangent space at the state's position for the NEW
+    metric, whatever the states computed (and cached) before."""
+    import types
+
     import numpy as np
-    from mbv import matzoo, zoo
+    from mbv import zoo
+    from mici.adapters import OnlineCovarianceMetricAdapter, OnlineVarianceMetricAdapter
     from mici.states import ChainState
 
     for kind in ("Constrained", "ConstrainedHausdorff", "GaussianConstrained"):
-        for first, second in (("dense", "diag"), ("diag", "dense")):
-            m = zoo.Model(3)
-            system = zoo.make_system(kind, m, metric=first)
-            q = zoo.on_manifold_point(m, 3)
-            st = ChainState(pos=q, mom=None, dir=1)
-            st.mom = system.sample_momentum(st, np.random.default_rng(1))
-            system.metric = matzoo.pos_def_metrics(3)[second][0]
-            p = system.sample_momentum(st, np.random.default_rng(2))
-            v = float(np.max(np.abs(m._jac(q) @ (system.metric.inv @ p))))
-            rp = {"engine": "metric-change", "kind": kind, "first": first, "second": second}
-            yield (f"C04:{kind}:sampled-momentum-after-metric-change",
-                   None if v < 1e-8 else f"{kind}: after reassigning system.metric ('{first}' -> '{second}') a momentum sampled for a "
-                   f"previously used state is outside the cotangent space: |J M^-1 p| = {v:.3g} (the Gram matrix cached in the state is stale)", rp)
+        for first in ("dense", "diag", "identity"):
+            for acls in (OnlineVarianceMetricAdapter, OnlineCovarianceMetricAdapter):
+                for n_chain in (1, 2):
+                    m = zoo.Model(3)
+                    system = zoo.make_system(kind, m, metric=first)
+                    transition = types.SimpleNamespace(system=system)
+                    adapter = acls()
+                    states, ads, rngs = [], [], []
+                    for c in range(n_chain):
+                        st = ChainState(pos=zoo.on_manifold_point(m, 3 + c), mom=None, dir=1)
+                        st.mom = system.sample_momentum(st, np.random.default_rng(1 + c))   # fills the caches
+                        ad = adapter.initialize(st, transition)
+                        for i in range(4):
+                            adapter.update(ad, ChainState(pos=st.pos + 0.1 * (i + 1) * np.arange(1, 4) ** c, mom=None, dir=1), {}, transition)
+                        states.append(st), ads.append(ad), rngs.append(np.random.default_rng(10 + c))
+                    if n_chain == 1:
+                        adapter.finalize(ads[0], states[0], transition, rngs[0])
+                    else:
+                        adapter.finalize(ads, states, transition, rngs)
+                    v = max(float(np.max(np.abs(m._jac(st.pos) @ (system.metric.inv @ st.mom)))) for st in states)
+                    rp = {"engine": "metric-change", "kind": kind, "first": first, "adapter": acls.__name__, "n_chain": n_chain}
+                    yield (f"C04:{kind}:sampled-momentum-after-metric-change",
+                           None if v < 1e-8 else f"{kind}: {acls.__name__}.finalize installed the adapted metric (was '{first}') and redrew the "
+                           f"momentum of a live state outside the cotangent space: |J M^-1 p| = {v:.3g} (the Gram matrix cached in the state is stale)", rp)
 
 
 def replay(rep):
@@ -69,5 +84,10 @@ def replay(rep):
         for owner, sig, what in SE.check_behaviour(b)[0]:
             if owner == "C04":
                 out.violate(sig, what, rep)
+        return out
+    if rep.get("engine") == "metric-change":
+        for sig, what, rp in metric_change_cotangent():
+            if what and all(rp.get(k) == rep.get(k) for k in ("kind", "first", "adapter", "n_chain")):
+                out.violate(sig, what, rp)
         return out
     return c02.replay(rep, "C04")
